@@ -440,10 +440,10 @@ func c20ExecBytes(ctx *vk.Ctx, c c20BytCase) error {
 			if c20HasOverlongLen(in, 0) && ctx.Known(c20KnownOverlong) {
 				return nil
 			}
-			if err1 == nil && (len(in) == 0 && t.Info.IsAminoMarshaler || c20HasEmptyPayload(in, 0)) && ctx.Known(c20KnownEmptyRepr) {
+			if err1 == nil && c20IsEmptyReprErr(err2) && (len(in) == 0 && t.Info.IsAminoMarshaler || c20HasEmptyPayload(in, 0)) && ctx.Known(c20KnownEmptyRepr) {
 				return nil
 			}
-			if err1 == nil && c20EndsWithBareBytesKey(in, 0) && ctx.Known(c20KnownBareKey) {
+			if err1 == nil && c20IsTooSmallErr(err2) && c20EndsWithBareBytesKey(in, 0) && ctx.Known(c20KnownBareKey) {
 				return nil
 			}
 			return fmt.Errorf("%s: decoders disagree on %x: reflect err=%v ; genproto2 err=%v", c.T, in, err1, err2)
@@ -551,10 +551,10 @@ func c20ExecAnyBytes(ctx *vk.Ctx, w *c20World, t *c20Type, c c20BytCase, in []by
 		if c20HasOverlongLen(in, 0) && ctx.Known(c20KnownOverlong) {
 			return nil
 		}
-		if err1 == nil && c20HasEmptyPayload(in, 0) && ctx.Known(c20KnownEmptyRepr) {
+		if err1 == nil && c20IsEmptyReprErr(err2) && c20HasEmptyPayload(in, 0) && ctx.Known(c20KnownEmptyRepr) {
 			return nil
 		}
-		if err1 == nil && c20EndsWithBareBytesKey(in, 0) && ctx.Known(c20KnownBareKey) {
+		if err1 == nil && c20IsTooSmallErr(err2) && c20EndsWithBareBytesKey(in, 0) && ctx.Known(c20KnownBareKey) {
 			return nil
 		}
 		return fmt.Errorf("Any decoders disagree on %x into %v: UnmarshalReflect err=%v ; UnmarshalAny err=%v", in, it, err1, err2)
@@ -627,6 +627,19 @@ func c20IsHexOverflow(p string) bool {
 // accepted by the reflect decoder; the generated decoder reports "buffer too
 // small".
 const c20KnownBareKey = "reflect-accepts-bytes-field-key-without-length"
+
+// c20IsEmptyReprErr: the error some UnmarshalAmino returns for the empty repr.
+func c20IsEmptyReprErr(err error) bool {
+	if err == nil {
+		return false
+	}
+	m := err.Error()
+	return strings.Contains(m, `""`) || strings.Contains(m, "invalid ObjectID")
+}
+
+func c20IsTooSmallErr(err error) bool {
+	return err != nil && strings.Contains(err.Error(), "buffer too small")
+}
 
 // c20KnownZeroRepr: an absent / empty payload for an AminoMarshaler type is
 // accepted by both decoders as the Go zero value without UnmarshalAmino being
